@@ -3,6 +3,7 @@
 Expressions are behaviours of specs/ExprGen.tla; the real str() / dagrt.expression.parse are applied;
 specs/ExprContracts.tla (RoundTrip clauses) judges under all small valuations."""
 
+import json
 import re
 
 from . import exprgen, exprs, tlc
@@ -11,16 +12,25 @@ from .common import sample
 LEVEL = "model_checking"
 
 
-def roundtrip(e_json, backticks=False):
+def floatify(j):
+    """The same expression with every integer constant written as a float (["cf", n] builds float(n))."""
+    if not isinstance(j, list):
+        return j
+    if len(j) == 2 and j[0] == "c" and isinstance(j[1], int):
+        return ["cf", j[1]]
+    return [floatify(x) for x in j]
+
+
+def roundtrip(e_json, backticks=False, floats=False):
     from dagrt.expression import parse
-    e = exprs.from_json(e_json)
+    e = exprs.from_json(floatify(e_json) if floats else e_json)
     s1 = str(e)
     text = s1
     if backticks:
         # backtick-quoted names denote the variable between the backticks
         text = re.sub(r"(<\w+>\w+|\b[xy]\b)", lambda m: "`%s`" % m.group(1), s1)
     case = {"kind": "roundtrip", "e": e_json, "s1": s1, "s2": "", "p": ["none"], "err": "",
-            "vars": exprgen.data_vars(e_json), "text": text, "backticks": backticks}
+            "vars": exprgen.data_vars(e_json), "text": text, "backticks": backticks, "floats": floats}
     try:
         p = parse(text)
         case["p"] = exprs.to_json(p)
@@ -107,6 +117,9 @@ def run(chk):
         cases.append(roundtrip(e))
         if k % 5 == 0:
             cases.append(roundtrip(e, backticks=True))
+        if k % 3 == 0 and '"c"' in json.dumps(e):
+            # the same expression with float constants, parsed in the same process after the integer form
+            cases.append(roundtrip(e, floats=True))
     chk.stage("roundtrip")
     tl = [{k: c[k] for k in ("kind", "e", "s1", "s2", "p", "err", "vars")} for c in cases]
     out = tlc.judge_batch("ExprContracts", tl, chunk=1500, chk=chk, jobs=12)
@@ -118,10 +131,10 @@ def run(chk):
         c = cases[k]
         pred = shape_predicate(c["e"])
         for clause in sorted(bad[k]):
-            chk.violation("C19:%s:%s" % (clause, "+".join(pred) or ("other:backticks" if c["backticks"] else "other")),
+            chk.violation("C19:%s:%s" % (clause, "+".join(pred) or ("other:backticks" if c["backticks"] else "other:float-constants" if c.get("floats") else "other")),
                           "%s: e = %s prints %r, parse(%r) -> %s prints %r" % (
                               clause, exprs.show(c["e"]), c["s1"], c["text"], c["err"] or exprs.show(c["p"]), c["s2"]),
-                          {"e": c["e"], "backticks": c["backticks"]})
+                          {"e": c["e"], "backticks": c["backticks"], "floats": c.get("floats", False)})
     chk.coverage.update({
         "evaluations": len(cases),
         "distinct_nontrivial": sum(1 for c in cases if len(c["vars"]) >= 1 and c["e"][0] not in ("v", "c")),
@@ -141,7 +154,7 @@ def run(chk):
 
 
 def replay(chk, rep):
-    c = roundtrip(rep["case"]["e"], rep["case"].get("backticks", False))
+    c = roundtrip(rep["case"]["e"], rep["case"].get("backticks", False), rep["case"].get("floats", False))
     print("e  =", exprs.show(c["e"]))
     print("s1 =", c["s1"], "| parsed text =", c["text"])
     print("p  =", c["err"] or exprs.show(c["p"]), "| s2 =", c["s2"])
